@@ -277,7 +277,7 @@ def system_checks(ctx):
                          f'(flat_map ray_fields l) {vlib.flist(flat)} end')
         allr = '[' + '; '.join(f'trace_last sys ray{j}' for j in range(len(recs))) + ']'
         lines.append(f'(let outs := {allr} in forallb (fun o => match o with Some _ => true | None => false end) outs && '
-                     f'stig_check {fh(tol_mm)} {fh(tol_mm)} {fh(0.0)} {fh(0.0)} '
+                     f'stig_check (O:=FOps) {fh(tol_mm)} {fh(tol_mm)} {fh(0.0)} {fh(0.0)} '
                      f'(flat_map (fun o => match o with Some r => [r] | None => [] end) outs))')
         bodies.append('\n'.join(defs) + '\nEval vm_compute in (report [\n' + ';\n'.join(lines) + '\n]).\n')
         meta.append((cfg, len(recs), recs))
